@@ -70,6 +70,7 @@ pub fn gen_case(seed: u64, family: &str, tier: Tier) -> Case {
     if family == "dense" {
         simcfg.alloc_every = 1;
         simcfg.p_stay = 0.5;
+        simcfg.atomic_load_every = 1;
     }
     Case { check: "C08".into(), seed, family: family.to_string(), world: w, batches: vec![batch], workers: r.range(1, 6) as usize, run_parallelism: None, simcfg, recorded: None, params: Value::Null }
 }
